@@ -473,7 +473,7 @@ def single_cases(tier, rng, op, frac_quick, extra=None, nrand_quick=3000, nrand_
         for k in ranks:
             for j in range(3 if tier == "thorough" or k > 12 else 2):
                 d = {"id": ["wide", k, j], "op": op, "src": "wide"}
-                d["A"] = gen.present(gen.wide_ta(rng, k), rng, rng.choice([x for x in nums if x != "huge"]))
+                d["A"] = gen.present(gen.wide_ta(rng, k), rng, rng.choice([x for x in nums if x not in ("huge", "top")]))
                 d["syms"] = gen.syms_of(d["A"])
                 if extra:
                     extra(d, rng)
@@ -487,6 +487,12 @@ def maybe_split(d, rng):
         d["amode"] = "copy"       # a copy of the operand (sharing its storage) is alive during the call and read back afterwards
     if d["op"] in ("trim", "reduce", "compl", "witness") and len(d["A"]["rules"]) >= 2 and rng.random() < 0.2:
         d["split"] = rng.randint(1, len(d["A"]["rules"]) - 1)
+        if rng.random() < 0.4:
+            # the final states arrive with the second stage; the second stage may consist of final states only
+            d["splitfin"] = True
+            d["split"] = rng.randint(1, len(d["A"]["rules"]))
+    if rng.random() < 0.12:
+        d["build"] = "load"       # the operand is assembled through LoadFromAutDesc (every stage ADDS to the object) instead of AddTransition
     if d["op"] == "reduce" and rng.random() < 0.3:
         d["viaparam"] = True
     if d["op"] == "trim" and rng.random() < 0.15:
@@ -503,7 +509,7 @@ def check_C03(tier, seed, res, replay=None):
     if replay:
         return do_replay(res, rd, replay)
     rng = random.Random(seed)
-    cases = single_cases(tier, rng, "trim", 0.5, nums=("id", "rev", "sparse", "perm", "huge"))
+    cases = single_cases(tier, rng, "trim", 0.5, nums=("id", "rev", "sparse", "perm", "huge", "top", "pow2"))
     for k in load_killers("trim.ndjson"):
         cases.append(dict(k, op="trim"))
     res.count_cases(cases, nontrivial_trim)
@@ -594,7 +600,7 @@ def check_C05(tier, seed, res, replay=None):
     if replay:
         return do_replay(res, rd, replay)
     rng = random.Random(seed)
-    cases = single_cases(tier, rng, "reduce", 0.5, nrand_quick=12000, nrand_thorough=60000, bigger=True, nums=("id", "rev", "sparse", "perm", "huge"))
+    cases = single_cases(tier, rng, "reduce", 0.5, nrand_quick=12000, nrand_thorough=60000, bigger=True, fan=200, nums=("id", "rev", "sparse", "perm", "huge", "top", "pow2"))
     for k in load_killers("reduce.ndjson"):
         cases.append(dict(k, op="reduce"))
     nt = lambda c: vlib.ta_nonempty(c["A"]) and len(vlib.ta_states(c["A"])) >= 2
@@ -727,7 +733,7 @@ def check_C15(tier, seed, res, replay=None):
     if replay:
         return do_replay(res, rd, replay)
     rng = random.Random(seed)
-    cases = single_cases(tier, rng, "witness", 0.15, nums=("id", "rev", "sparse", "perm", "huge"))
+    cases = single_cases(tier, rng, "witness", 0.15, nums=("id", "rev", "sparse", "perm", "huge", "top", "pow2"))
     nt = lambda c: vlib.ta_nonempty(c["A"])
     res.count_cases(cases, nt)
     res.add_samples([c for c in cases if nt(c)][:3])
